@@ -276,8 +276,16 @@ class Driver:
         if not reqs:
             return []
         data = '\n'.join(json.dumps(r, separators=(',', ':')) for r in reqs) + '\n'
-        p = subprocess.run([DRIVER], input=data, stdout=subprocess.PIPE, stderr=subprocess.PIPE,
-                           text=True, timeout=timeout)
+        for attempt in range(40):
+            # another check running in parallel may be relinking the driver at this very moment (lake replaces the file): wait for it
+            try:
+                p = subprocess.run([DRIVER], input=data, stdout=subprocess.PIPE, stderr=subprocess.PIPE,
+                                   text=True, timeout=timeout)
+                break
+            except (FileNotFoundError, PermissionError, OSError) as e:
+                if attempt == 39 or isinstance(e, subprocess.TimeoutExpired):
+                    raise
+                time.sleep(3)
         lines = p.stdout.splitlines()
         if len(lines) != len(reqs):
             raise RuntimeError('driver returned %d lines for %d requests (rc=%s, stderr=%s)' %
